@@ -245,6 +245,7 @@ pub fn cmd_nonblock(args: &Args, out: &Out) {
         let _ = helper.join();
         let mut viol: Option<(String, String)> = None;
         let mut obs = J::Null;
+        let mut inconclusive = false;
         match res {
             None => viol = Some((format!("C18/{op}/call-never-returned"), "no result within 15 s although the peer acted".into())),
             Some((r, e, el, fb, fa)) => {
@@ -252,7 +253,11 @@ pub fn cmd_nonblock(args: &Args, out: &Out) {
                 if fb != fa {
                     viol = Some((format!("C18/{op}/blocking-mode-not-restored"), format!("F_GETFL before {fb:#x} after {fa:#x} (returned {r}, errno {e})")));
                 } else if caller_nonblocking {
-                    if el >= 400 {
+                    let noise_ms = wl_core::sched_noise_ns() / 1_000_000;
+                    if el >= 400 && (20 * noise_ms > 250 || wl_core::overloaded()) {
+                        // the machine is too busy to tell "returned at once" from "waited for the peer" (700 ms)
+                        inconclusive = true;
+                    } else if el >= 400 {
                         viol = Some((format!("C18/{op}/nonblocking-call-waited-instead-of-EAGAIN"), format!("blocked {el} ms (until the peer acted); native behaviour is an immediate EAGAIN; returned {r} errno {e}")));
                     } else if !(r == -1 && (e == libc::EAGAIN || e == libc::EWOULDBLOCK)) {
                         viol = Some((format!("C18/{op}/nonblocking-would-block-not-reported-as-EAGAIN"), format!("returned {r} errno {e} after {el} ms")));
@@ -277,6 +282,10 @@ pub fn cmd_nonblock(args: &Args, out: &Out) {
             }
         }
         let fp = format!("{op}|{coroutine}|{caller_nonblocking}");
+        if inconclusive && viol.is_none() {
+            out.end(case, Verdict::Inconclusive, "machine-too-busy-for-timing-verdict", false, &fp, obs, "");
+            continue;
+        }
         match viol {
             Some((sig, d)) => {
                 out.end(case, Verdict::Violated, &sig, true, &fp, obs, &d);
@@ -615,6 +624,7 @@ pub fn cmd_timed(args: &Args, out: &Out) {
             let mut min_el = u64::MAX;
             let mut viol: Option<(String, String)> = None;
             let mut samples = vec![];
+            let noise_before = wl_core::sched_noise_ns();
             let name = wait_str(&w).split('(').next().unwrap_or("").to_lowercase();
             for _ in 0..(if long { 1 } else { 3 }) {
                 let limit = Duration::from_nanos(req) + Duration::from_secs(30);
@@ -642,11 +652,19 @@ pub fn cmd_timed(args: &Args, out: &Out) {
                     }
                 }
             }
-            if viol.is_none() && !long && min_el > req + slack_ns {
-                viol = Some((format!("C14/{name}/returns-late"), format!("{}: fastest of 3 attempts took {min_el} ns, requested {req} ns (+{slack_ns} ns slack)", wait_str(&w))));
+            // slack = 50 ms + 20 x what a native 1 ms sleep overshoots by on this machine right now (measured before and after)
+            let noise = noise_before.max(wl_core::sched_noise_ns());
+            // waits that are cut into <= 10 ms slices accumulate one wake-up overshoot per slice
+            let slack = (50_000_000 + 20 * noise + 4 * noise * (req / 10_000_000)).min(slack_ns.max(5_000_000_000));
+            if viol.is_none() && !long && min_el > req + slack {
+                viol = Some((format!("C14/{name}/returns-late"), format!("{}: fastest of 3 attempts took {min_el} ns, requested {req} ns (+{slack} ns slack; a native 1 ms sleep currently overshoots by {noise} ns)", wait_str(&w))));
             }
             let fp = format!("{}|{ctx}", wait_str(&w));
             let obs = jobj! {"elapsed_ns" => samples, "requested_ns" => req};
+            if viol.as_ref().is_some_and(|v| v.0.contains("late")) && wl_core::overloaded() {
+                out.end(case, Verdict::Inconclusive, "machine-overloaded-during-timing-case", false, &fp, obs, &viol.map(|v| v.1).unwrap_or_default());
+                continue;
+            }
             match viol {
                 Some((s, d)) => {
                     let stuck = s.contains("far-too-late");
